@@ -70,7 +70,7 @@ class Script:
         self.rec = {k: [] for k in self.STREAMS}
         self.replay = record
         self.backend = None  # set by ScriptedBackend (public view of paused trials for 'resume')
-        self._clock = 0.0
+        self._clock = float(self.profile.get("clock_start", 0.0))
         self._ts = 0
         self._n_failed = 0
         self.drain = False
@@ -126,8 +126,11 @@ class Script:
             for _ in range(k):
                 self._ts += 1
                 ts = self._ts * 4 + r.randint(-p.get("ts_jitter", 6), p.get("ts_jitter", 6))
-                metric = r.randint(0, p.get("metric_grid", 40)) / 4.0
-                cost = r.randint(0, 12) / 4.0
+                if p.get("int_values"):   # the values are delivered as int / np.int64
+                    metric, cost = float(r.randint(0, 10)), float(r.randint(0, 3))
+                else:
+                    metric = r.randint(0, p.get("metric_grid", 40)) / 4.0
+                    cost = r.randint(0, 12) / 4.0
                 reps.append([metric, cost, float(ts)])
             return [reps, status]
         v = self._next("world", gen, [[], "InProgress"])
@@ -195,6 +198,16 @@ class Script:
 # ------------------------------------------------------------------------------------------
 # backend
 # ------------------------------------------------------------------------------------------
+def num_cast(name):
+    """type of the metric / cost values in the result dicts a backend delivers (tabulated benchmarks deliver
+    NumPy scalars such as float32, which are numbers but not instances of float)"""
+    import numpy as np
+    return {"float": float, "np.float64": np.float64, "np.float32": np.float32, "int": int, "np.int64": np.int64}[name]
+
+
+NUM_TYPES = ("float", "np.float64", "np.float32", "int", "np.int64")
+
+
 def make_backend_class():
     from syne_tune.backend.trial_backend import TrialBackend
     from syne_tune.backend.trial_status import TrialResult
@@ -210,9 +223,12 @@ def make_backend_class():
         schedulers: it counts reports, and a resumed run continues after the epoch at which it was paused
         (as a training script restarted from the checkpoint of that moment would)."""
 
-        def __init__(self, script, log, config_key="x"):
+        def __init__(self, script, log, config_key="x", num_type="float"):
             super().__init__(delete_checkpoints=False)
             self.script, self.log, self.config_key = script, log, config_key
+            self.cast = num_cast(num_type)
+            # harness-side statistics of the results the polls returned (what the criterion fields refer to)
+            self.truth = dict(evaluations=0, min_m=None, max_m=None, cost_by_trial={})
             script.backend = self
             self.workers = {}          # trial_id -> dict(status, metrics, config, created)
             self.copies = []
@@ -244,8 +260,8 @@ def make_backend_class():
                     for metric, cost, ts in reps:
                         idx = len(w["metrics"])
                         w["epoch"] += 1
-                        w["metrics"].append({"m": metric, "epoch": w["epoch"], "idx": idx, "trial": t,
-                                             ST_WORKER_COST: cost, ST_WORKER_TIME: float(idx + 1),
+                        w["metrics"].append({"m": self.cast(metric), "epoch": w["epoch"], "idx": idx, "trial": t,
+                                             ST_WORKER_COST: self.cast(cost), ST_WORKER_TIME: float(idx + 1),
                                              ST_WORKER_TIMESTAMP: ts})
                     w["status"] = status
                     if status == "Failed" and self.in_poll:
@@ -342,9 +358,17 @@ def make_backend_class():
             self._call(("b_fetch", list(order)))
             self.in_poll = True
             try:
-                return super().fetch_status_results(order)
+                status_dict, results = super().fetch_status_results(order)
             finally:
                 self.in_poll = False
+            tr = self.truth
+            for t, r in results:
+                m, c = float(r["m"]), float(r[ST_WORKER_COST])
+                tr["evaluations"] += 1
+                tr["min_m"] = m if tr["min_m"] is None else min(tr["min_m"], m)
+                tr["max_m"] = m if tr["max_m"] is None else max(tr["max_m"], m)
+                tr["cost_by_trial"][t] = max(tr["cost_by_trial"].get(t, c), c)
+            return status_dict, results
 
         def stop_all(self):
             self._call(("b_stop_all",))
@@ -552,7 +576,9 @@ class RecordingCriterion:
             finished=int(status.num_trials_finished), cost=float(status.cost),
             min_metrics={k: float(v) for k, v in stats.min_metrics.items()},
             max_metrics={k: float(v) for k, v in stats.max_metrics.items()},
-            criterion=c, extra=e))
+            criterion=c, extra=e,
+            truth=dict(evaluations=self.backend.truth["evaluations"], min_m=self.backend.truth["min_m"],
+                       max_m=self.backend.truth["max_m"], cost=float(sum(self.backend.truth["cost_by_trial"].values())))))
         self.log(("stop_cond", crit, crit or status.num_trials_failed > self.max_failures))
         return crit
 
@@ -577,7 +603,7 @@ def run_tuner(params, script, scheduler_factory=None, hard_limit=400):
     trace = []
     log = trace.append
     logging.disable(logging.CRITICAL)
-    backend = make_backend_class()(script, log)
+    backend = make_backend_class()(script, log, num_type=params.get("num_type", "float"))
     if scheduler_factory is None:
         scheduler = make_scheduler_class()(script, log)
     else:
@@ -626,23 +652,38 @@ def run_tuner(params, script, scheduler_factory=None, hard_limit=400):
                     replaced_exception = e.__context__ is not None
                 else:
                     outcome = ["exception", type(e).__name__, where, str(e)[:200]]
+            # everything the checkers and the model comparison look at is taken here, after the (first) run
             status = tuner.tuning_status
             smap = [[t, status_name(s)] for t, s in status.last_trial_status_seen.items()]
             counters = dict(started=status.num_trials_started, completed=status.num_trials_completed,
                             failed=status.num_trials_failed, finished=status.num_trials_finished,
                             running=status.num_trials_running,
                             evaluations=status.overall_metric_statistics.count, cost=float(status.cost))
+            snapshot = dict(workers=backend.worker_statuses(), occupancy=list(backend.occupancy_checks),
+                            iterations=recorder.iterations, n_trials=len(backend.trial_ids), at_exit=recorder.at_exit,
+                            criterion_obs=list(criterion.observations), failed_in_poll=list(backend.failed_in_poll))
+            first_len = len(trace)
+            second_outcome = None
+            if params.get("rerun") and outcome == ["normal"]:
+                # run() called again on the finished Tuner (its TuningStatus and the criterion's state are kept)
+                try:
+                    tuner.run()
+                    second_outcome = ["normal"]
+                except HarnessAbort:
+                    second_outcome = ["aborted"]
+                except Exception as e:
+                    second_outcome = ["exception", type(e).__name__]
+            second_trace = trace[first_len:]
+            del trace[first_len:]
     finally:
         logging.disable(logging.NOTSET)
         if old_folder is None:
             os.environ.pop("SYNETUNE_FOLDER", None)
         else:
             os.environ["SYNETUNE_FOLDER"] = old_folder
-    return dict(trace=trace, outcome=outcome, smap=smap, workers=backend.worker_statuses(), counters=counters,
-                occupancy=backend.occupancy_checks, iterations=recorder.iterations, aborted=aborted,
-                n_trials=len(backend.trial_ids), copies=backend.copies, at_exit=recorder.at_exit,
-                criterion_obs=criterion.observations,
-                failed_in_poll=backend.failed_in_poll, replaced_exception=replaced_exception)
+    return dict(trace=trace, outcome=outcome, smap=smap, counters=counters, aborted=aborted, copies=backend.copies,
+                replaced_exception=replaced_exception, second_trace=second_trace, second_outcome=second_outcome,
+                **snapshot)
 
 
 # ------------------------------------------------------------------------------------------
